@@ -6,7 +6,6 @@ import (
 	"fmt"
 	"reflect"
 	"strconv"
-	"unsafe"
 
 	"verif/common"
 	"verif/space"
@@ -257,24 +256,12 @@ func capCheck(r *common.Run) {
 // ---------------------------------------------------------------- SyncRing behaviour with teleported counters
 
 // teleport puts a fresh ring into the state that k push/pop pairs would leave.
-func teleport(s *ringz.SyncRing[Val], k uint32) bool {
-	v := reflect.ValueOf(s).Elem()
-	head, tail, values, mask := v.FieldByName("head"), v.FieldByName("tail"), v.FieldByName("values"), v.FieldByName("mask")
-	if !head.IsValid() || !tail.IsValid() || !values.IsValid() || !mask.IsValid() || head.Kind() != reflect.Uint32 || values.Kind() != reflect.Slice {
-		return false
-	}
-	m := uint32(mask.Uint())
-	*(*uint32)(unsafe.Pointer(head.UnsafeAddr())) = k
-	*(*uint32)(unsafe.Pointer(tail.UnsafeAddr())) = k
-	for i := 0; i < values.Len(); i++ {
-		pos := values.Index(i).FieldByName("pos")
-		if !pos.IsValid() || pos.Kind() != reflect.Uint32 {
-			return false
-		}
-		*(*uint32)(unsafe.Pointer(pos.UnsafeAddr())) = k + ((uint32(i) - k) & m)
-	}
-	return true
-}
+func teleport(s *ringz.SyncRing[Val], k uint32) bool { return teleUsable && common.TeleportSyncRing(s, k) }
+
+// teleUsable is cleared when the teleported state does not equal the honestly stepped one (the
+// private representation is not of the shape common.TeleportSyncRing understands): the 2^32
+// families are then skipped and reported as not covered, they are not an alarm.
+var teleUsable = true
 
 type syncInst struct {
 	s     ringz.SyncRing[Val]
@@ -390,7 +377,9 @@ func syncSearch(r *common.Run) []space.Result {
 			}
 			r.Eval(1)
 			if a, b := canon.Dump(&honest), canon.Dump(&tele); a != b {
-				common.Infra("teleport does not reproduce honest stepping (cap %d, k %d):\n honest %s\n tele   %s", capa, k, a, b)
+				teleOK, teleUsable = false, false
+				r.Cov("teleport_mismatch", fmt.Sprintf("cap %d, k %d: honest %s / teleported %s", capa, k, a, b))
+				break
 			}
 		}
 		var ks []uint32
@@ -443,7 +432,7 @@ func syncSearch(r *common.Run) []space.Result {
 				x := &syncInst{cap: 2, max: 5, reinit: true}
 				x.s = ringz.NewSync[Val](2)
 				if s > 0 {
-					teleport(&x.s, ks[s])
+					teleport(&x.s, ks[s]) // all or nothing: an unknown representation leaves the fresh ring
 				}
 				return x
 			},
@@ -494,10 +483,11 @@ func honestWrap(r *common.Run) {
 	// now head == tail == total+1 (mod 2^32)
 	tele := ringz.NewSync[Val](capa)
 	if teleport(&tele, uint32(total+1)) {
-		if a, b := canon.Dump(&s), canon.Dump(&tele); a != b {
-			common.Infra("teleport differs from the honest 2^32 run:\n honest %s\n tele   %s", a, b)
-		}
+		a, b := canon.Dump(&s), canon.Dump(&tele)
 		r.Cov("honest_wrap_pairs", total)
-		r.Cov("honest_wrap_matches_teleport", true)
+		r.Cov("honest_wrap_matches_teleport", a == b)
+		if a != b {
+			r.Incomplete("the teleported state differs from the honest 2^32 run: the teleport-based families of this run are not bound to the code")
+		}
 	}
 }
